@@ -120,16 +120,24 @@ def build_cover(rng, res):
     return src, cover
 
 
-def check_cover(res, cover, rng, path):
+def check_cover(res, cover, rng, path, params=None):
     import gcmpy
     from gcmpy import JointDegreeNames as N
     res.count("covers")
-    params = {N.COVER: cover}
+    if params is None:
+        params = {}
+    else:
+        res.count("loads_with_a_params_dict_used_before")      # the caller's own dict, used for an earlier load, with the new cover in it
+    params[N.COVER] = cover
+    if path != "direct":
+        params[N.JOINT_DEGREE_TYPE] = "cover"
+    given = dict(params)
     if path == "direct":
         L = sut("JointDegreeCover(params)", gcmpy.JointDegreeCover, params)
     else:
-        params[N.JOINT_DEGREE_TYPE] = "cover"
         L = sut("load_joint_degree(cover)", gcmpy.JointDegreeDistribution.load_joint_degree, params)
+    if set(params) != set(given):
+        res.count("loads_that_added_keys_to_the_caller's_dict")      # not a violation in itself; what matters is the next load from that dict
     sizes = sorted({len(c) for c in cover})
     got_sizes = sut("motif_sizes", lambda: L.motif_sizes)
     if list(got_sizes) != sizes:
@@ -211,7 +219,8 @@ def run_case(case):
     path = rng.choice(["direct", "direct", "dispatcher"])
     import copy
     snapshot = copy.deepcopy(cover)
-    nt = check_cover(res, cover, rng, path)
+    my_params = {}
+    nt = check_cover(res, cover, rng, path, params=None if rng.random() < 0.5 else my_params)
     if res.verdict == "held" and rng.random() < 0.4:
         # history: the caller's list OBJECT is used again as a buffer for another cover with the same number of cliques (a sweep
         # over seeds / parameters), and a new loader is built from it
@@ -228,7 +237,7 @@ def run_case(case):
         other = [[ren[v] for v in c] for c in other]
         cover[:] = other
         res.count("covers_written_into_the_same_list_object")
-        check_cover(res, cover, rng, path)
+        check_cover(res, cover, rng, path, params=my_params)
     res.nontrivial = bool(nt)
     res.digest = digest(snapshot)
     res.sample = {"source": src, "path": path, "cover": snapshot if len(snapshot) < 60 else snapshot[:60] + ["... %d cliques" % len(snapshot)]}
